@@ -529,6 +529,7 @@ func TestC12(t *testing.T) {
 		Level: "exploration",
 		Rule: "Exhaustive part: every and/or/not skeleton with 1..4 atoms (all binary shapes x all connective choices x all placements of 'not' on leaves and inner nodes), each rendered (i) with the minimal parentheses standard precedence requires, (ii) with every operand parenthesised, (iii) with one redundant layer around each child of the root; all 2^n truth assignments are compared with the skeleton's own value. " +
 			"Random part (rapid): skeletons with 2..8 leaves (40% of them re-using 2-3 atoms in several places), redundant layers, whitespace runs of space/tab/CR/LF in every WS+/WS* slot, per-letter keyword case; a quarter also instantiate the atoms with real comparisons over a stored dataset and require QueryIds(re-spelling) == QueryIds(canonical) == the skeleton applied to the atoms' own answers. " +
+			"Skeletons of up to three atoms are also evaluated with constant atoms (the literals true / false, range tests on an always-null number) for every assignment, and with ast.EnableQueryDebug on; the exhaustive part includes mirror pairs (two groupings of the same three atoms under one connective). " +
 			"Non-trivial: and/or mixed without separating parentheses, or a 'not', or a re-spelling. Distinct by hash of the case JSON.",
 		Assumptions: []string{
 			"'not' is always written not (P) and parenthesised when it is an operand of a connective: how a bare not binds against and/or is not stated by the property",
